@@ -293,6 +293,24 @@ pub struct St<'a> {
 }
 impl<'a> Scope for St<'a> {
     fn get(&self, name: &str) -> MVal {
+        if name == MAGIC_CONTEXT {
+            // global context, then render context, then assignments, then loop-local assignments
+            let mut m = BTreeMap::new();
+            for src in [self.global, Some(self.ctx)].into_iter().flatten() {
+                for (k, v) in src {
+                    m.insert(MKey::Str(k.clone()), v.clone());
+                }
+            }
+            for (k, v) in &self.sets {
+                m.insert(MKey::Str(k.clone()), v.clone());
+            }
+            for l in &self.loops {
+                for (k, v) in &l.locals {
+                    m.insert(MKey::Str(k.clone()), v.clone());
+                }
+            }
+            return MVal::Map(m);
+        }
         for l in self.loops.iter().rev() {
             if let Some(v) = l.locals.get(name) {
                 return v.clone();
